@@ -314,6 +314,26 @@ impl Model {
                 }
                 Verdict::Accept
             }
+            MutOp::UncheckedSet { c, r } => {
+                // calling the unchecked accessor out of range is the caller's undefined behaviour
+                if c < cn && r < rn {
+                    self.rows[r][c] = vals[0];
+                    Verdict::Accept
+                } else {
+                    Verdict::Skip
+                }
+            }
+            MutOp::UncheckedRowSet { r, c } => {
+                if r >= rn {
+                    Verdict::Skip
+                } else if c < cn {
+                    self.rows[r][c] = vals[0];
+                    Verdict::Accept
+                } else {
+                    // the row slice is checked: an out-of-range column panics
+                    Verdict::Reject
+                }
+            }
             MutOp::SetCoord { c, r } | MutOp::SetRowCol { r, c } | MutOp::RowsMutSet { r, c } => {
                 if c < cn && r < rn {
                     self.rows[r][c] = vals[0];
